@@ -32,7 +32,20 @@ CLAIMED = {
     "C14": ("Allowed_Sk14 in spec/Sketch.tla for the estimator itself, Allowed_C14 for the cache-level clause",
             "5 C14", "Sketch.tla is model-checked exhaustively for the tiny tables of capacities 0..3 with colliding and disjoint hash families; abstract hashes are concretised by search through the facade."),
 }
-EXTRA = {}   # filled by later rounds: property -> dict(text=..., note=..., technique=..., category=...)
+EXTRA = {
+    "C17": dict(
+        text="spec/Builder.tla states what build(), Cache::new and policy() must do; TLC enumerates the whole "
+             "configuration space of the property (both cache kinds, builder / new, every knob absent or present, "
+             "boundary durations around 1000 years, capacities 0..u64::MAX, initial capacities: 4714 configurations) "
+             "and checks the C17 monitor on the model. Every configuration is then built for real (catch_unwind around "
+             "build), followed by a short hasher-independent history and by its equivalent configurations (other "
+             "initial_capacity; new(n) against builder().max_capacity(n)); TLC judges the recorded Build / Follow / Twin "
+             "events with the monitor and compares them with Builder.tla.",
+        note="The enumeration is complete for the listed boundary values, not for all u64 / Duration values. Trusted: TLC, "
+             "the JSON reader, the harness's mapping of durations and capacities to indices.",
+        technique="TLA+ monitor model-checked over the complete configuration enumeration; every configuration replayed on the real builders; recorded events validated by TLC",
+        ref="5 C17"),
+}   # filled by later rounds: property -> dict(text=..., note=..., technique=..., category=...)
 
 
 def main():
